@@ -619,12 +619,12 @@ def gen_cases(ctx, harness):
     lines = common.corpus("C06", ("GP ", "GR ", "SP "))
     ncorpus = len(lines)
     if ctx.quick:
-        plan = [("gp", ctx.seed, 260, 0), ("gpc", ctx.seed + 31, 120, None), ("gpn", ctx.seed + 57, 60, 0), ("grid", ctx.seed, 3000, None), ("spread", ctx.seed, 3000, None)]
+        plan = [("gp", ctx.seed, 260, 0), ("gpc", ctx.seed + 31, 120, None), ("gpn", ctx.seed + 57, 60, 0), ("gpf", ctx.seed + 83, 50, 0), ("grid", ctx.seed, 3000, None), ("spread", ctx.seed, 3000, None)]
     else:
         plan = []
         for k in range(3):
             s = ctx.seed + 1000 * k
-            plan += [("gp", s, 1500, 0), ("gp", s + 7, 700, 1), ("gpc", s + 31, 1200, None), ("gpn", s + 57, 500, 0), ("gpn", s + 58, 200, 1), ("grid", s, 30000, None), ("spread", s, 30000, None)]
+            plan += [("gp", s, 1500, 0), ("gp", s + 7, 700, 1), ("gpc", s + 31, 1200, None), ("gpn", s + 57, 500, 0), ("gpn", s + 58, 200, 1), ("gpf", s + 83, 400, 0), ("gpf", s + 84, 150, 1), ("grid", s, 30000, None), ("spread", s, 30000, None)]
     coinc = set()
     for what, s, n, lvl in plan:
         new = common.harness_gen(harness, [what, s, n] + ([lvl] if lvl is not None else []))
